@@ -11,7 +11,8 @@
        line is split at the LAST one) nor a line separator; rule names are
        pairwise different (a repeated name is an error of the format);
      - the written regular expression is printable ([re_printable]): no line
-       separator; no unescaped trailing blank and no dangling final backslash
+       separator; no unescaped trailing blank (space or tab: any other character,
+       a form feed or a NEL included, may end it) and no dangling final backslash
        ([re_trim_ok]); and, for a rule without <..> prefix: not empty, does not
        begin with white space (such a line is "verbatim code"), with `<` (a
        prefix), with `%%` (the end of the section), nor — when whole-line
@@ -36,12 +37,12 @@ Fixpoint nodup_b (l : list text) : bool :=
   match l with [] => true | n :: l' => negb (mem_text n l') && nodup_b l' end.
 
 (* ---- abstract specifications --------------------------------------------------- *)
-(* neither an unescaped blank nor a lone backslash at the end: when the text ends in white
-   space or in a backslash, an odd number of backslashes precedes that last character *)
+(* neither an unescaped blank nor a lone backslash at the end: when the text ends in a space, a
+   tab or a backslash, an odd number of backslashes precedes that last character *)
 Definition re_trim_ok (w : text) : bool :=
   match rev w with
   | [] => true
-  | c :: r => if is_ws c || (c =? c_bsl)%N then Nat.odd (length (take_while (N.eqb c_bsl) r)) else true
+  | c :: r => if is_space_sep c || (c =? c_bsl)%N then Nat.odd (length (take_while (N.eqb c_bsl) r)) else true
   end.
 
 Definition re_start_ok (awc : bool) (w : text) : bool :=
@@ -83,7 +84,7 @@ Definition wf_ritem (awc : bool) (it : ritem) : bool :=
 Definition wf_dline (awc : bool) (dl : dline_lay) : bool :=
   forallb is_alnum (dl_kw dl)
   && negb (is_nil (dl_gap dl)) && forallb is_iws (dl_gap dl)
-  && forallb is_iws (dl_seps dl)
+  && forallb (fun s => negb (is_nil s) && forallb is_iws s) (dl_seps dl)
   && forallb is_iws (dl_trail dl)
   && is_line_sep (dl_nl dl)
   && forallb (wf_ditem awc) (dl_after dl).
@@ -105,7 +106,7 @@ Definition after_ok (last : bool) (its : list ritem) : bool :=
 
 Definition wf_rline (awc last : bool) (rl : rline_lay) : bool :=
   forallb (fun p => forallb is_iws (fst p) && forallb is_iws (snd p)) (rl_pads rl)
-  && forallb is_iws (rl_blanks rl)
+  && forallb is_space_sep (rl_blanks rl)
   && is_space_sep (rl_sp rl)
   && forallb is_iws (rl_trail rl)
   && forallb (wf_ritem awc) (rl_after rl)
@@ -173,7 +174,7 @@ Definition declarations_roundtrip_stmt : Prop :=
     wf_aspec awc sp = true -> wf_layout awc lay sp = true ->
     match rest with [] => True | c :: _ => is_space_sep c = false end ->
     byte_len (print_decl_section lay sp) <= fuel ->
-    parse_declarations (print_decl_section lay sp ++ rest) awc fuel 0 initial_state [] =
+    parse_declarations (print_decl_section lay sp ++ rest) awc repaired fuel 0 initial_state [] =
       TOk (byte_len (print_decl_section lay sp),
            {| rules := []; start_states := states_of_spec lay sp |}) [].
 
@@ -212,15 +213,16 @@ Definition t (s : list nat) : text := map N.of_nat s.
 (* two declaration lines (exclusive Str; inclusive A and B.c), four rules: one with the prefix
    INITIAL, Str, escapes (backslash double-quote, backslash space at the end) and the target +Str;
    one skip rule with a blank inside a class; one whose name contains a quote, with target -A;
-   one that ends in an escaped backslash, with a plain target and the empty-string spelling
-   of no name; with awc also two comments *)
+   (its regex ends in a form feed, which is kept); one that ends in an escaped backslash, with a
+   plain target and the empty-string spelling of no name; the second declaration line separates its
+   two names by three blanks (tab, space, form feed); with awc also two comments *)
 Definition ex_spec : aspec :=
   {| a_states := [(t [83;116;114], true); (t [65], false); (t [66;46;99], false)];
      a_rules :=
        [ {| a_pre := [initial_name; t [83;116;114]]; a_re := t [92;34;97;92;32];
             a_name := Some (t [79;80;69;78]); a_target := Some (t [83;116;114], Push) |};
          {| a_pre := []; a_re := t [91;32;92;116;93;43]; a_name := None; a_target := None |};
-         {| a_pre := [t [83;116;114]]; a_re := t [120];
+         {| a_pre := [t [83;116;114]]; a_re := t [120;12];
             a_name := Some (t [105;116;39;115]); a_target := Some (t [65], Pop) |};
          {| a_pre := []; a_re := t [98;92;92]; a_name := None;
             a_target := Some (t [66;46;99], ReplaceStack) |} ] |}.
@@ -230,7 +232,7 @@ Definition ex_layout (awc : bool) : layout :=
      l_dlines :=
        [ {| dl_upper := false; dl_kw := []; dl_gap := t [32]; dl_seps := []; dl_trail := [];
             dl_nl := 10%N; dl_after := [] |};
-         {| dl_upper := true; dl_kw := t [116;52]; dl_gap := t [32;9]; dl_seps := [9%N]; dl_trail := t [32];
+         {| dl_upper := true; dl_kw := t [116;52]; dl_gap := t [32;9]; dl_seps := [t [9; 32; 12]]; dl_trail := t [32];
             dl_nl := 13%N; dl_after := [DWs 10%N; DWs 32%N] |} ];
      l_sep_blanks := t [32];
      l_gap0 := [RNl 10%N];
@@ -248,7 +250,7 @@ Definition ex_layout (awc : bool) : layout :=
 Definition roundtrip_example_stmt : Prop :=
   (forall awc, wf_aspec awc ex_spec = true /\ wf_layout awc (ex_layout awc) ex_spec = true) /\
   map r_re_str (rules (spec_of false false (ex_layout true) ex_spec)) =
-    [t [34;97;32]; t [91;32;92;116;93;43]; t [120]; t [98;92;92]] /\
+    [t [34;97;32]; t [91;32;92;116;93;43]; t [120;12]; t [98;92;92]] /\
   map r_start_states (rules (spec_of false false (ex_layout true) ex_spec)) = [[0; 1]; []; [1]; []] /\
   map r_target (rules (spec_of false false (ex_layout true) ex_spec)) =
     [Some (1, Push); None; Some (2, Pop); Some (3, ReplaceStack)].
